@@ -17,9 +17,12 @@ import (
 	log "github.com/sirupsen/logrus"
 )
 
+const maxPartitionCount uint32 = 1024
+
 var (
 	DatasetNotFoundErr      error = errors.New("Dataset not found")
 	DatasetAlreadyExistsErr error = errors.New("Dataset already exists")
+	InvalidDatasetErr       error = errors.New("Invalid dataset: dimension, partition count (at most 1024) and replication factor must be positive and the space must be known")
 )
 
 type DatasetManager struct {
@@ -104,6 +107,13 @@ func (this *DatasetManager) Get(id uuid.UUID) (*Dataset, error) {
 }
 
 func (this *DatasetManager) Create(ctx context.Context, dataset *pb.Dataset) (*Dataset, error) {
+	if dataset.GetDimension() == 0 || dataset.GetReplicationFactor() == 0 || dataset.GetPartitionCount() == 0 || dataset.GetPartitionCount() > maxPartitionCount {
+		return nil, InvalidDatasetErr
+	}
+	if _, known := pb.Space_name[int32(dataset.GetSpace())]; !known {
+		return nil, InvalidDatasetErr
+	}
+
 	ctx, cancelCtx := context.WithTimeout(ctx, 1*time.Second)
 	defer cancelCtx()
 
